@@ -222,7 +222,7 @@ func (d *Document) CreateTOCSDT(title string, maxLevel int) *SDT {
 		},
 		Runs: []Run{
 			{
-				Text: Text{Content: title},
+				Text: Text{Content: title, Space: "preserve"},
 				Properties: &RunProperties{
 					FontFamily: &FontFamily{ASCII: "宋体"},
 					FontSize:   &FontSize{Val: "21"},
@@ -286,7 +286,7 @@ func (sdt *SDT) AddTOCEntry(text string, level int, pageNum int, entryID string)
 		Content: &SDTContent{
 			Elements: []interface{}{
 				Run{
-					Text: Text{Content: text},
+					Text: Text{Content: text, Space: "preserve"},
 				},
 			},
 		},
@@ -297,7 +297,7 @@ func (sdt *SDT) AddTOCEntry(text string, level int, pageNum int, entryID string)
 
 	// 创建包含制表符和页码的文本Run
 	tabRun := Run{
-		Text: Text{Content: "\t"},
+		Text: Text{Content: "\t", Space: "preserve"},
 	}
 
 	pageRun := Run{
